@@ -2,7 +2,7 @@ SPEC = {
     'id': 'C34',
     'harness': 'hC34',
     'coq_dir': 'C34',
-    'claimed': False,
+    'claimed': True,
     'theorems': ['C34_rebuild_exact_refuted', 'C34_rebuild_exact', 'C34_rebuild_exact_up_to_main',
                  'C34_index_after_arrivals', 'C34_rebuild_guard_example', 'C34_arrival',
                  'C34_missing_waits_then_requests', 'C34_single_block_life', 'C34_life_example',
